@@ -250,7 +250,7 @@ async fn run_l1_inner(case: &LogCase, dir: &std::path::Path, out: &mut L1Outcome
             LogOp::BumpTerm => {
                 m.term += 1;
             }
-            LogOp::CompactPointer { .. } | LogOp::InstallPointer { .. } | LogOp::Idle => {}
+            LogOp::CompactPointer { .. } | LogOp::InstallPointer { .. } | LogOp::Idle | LogOp::FillToRollover { .. } => {}
         }
         // full comparison after every op that can change what is readable other than by appending;
         // after plain appends only the tail window is compared (the full log is compared at the
